@@ -62,6 +62,8 @@ def check(ctx):
                                  "one summary per group: a zero-row frame has no groups, with Numba or without")
     _gen.argument_as_given(ctx, repo.fn("dataiter.data_frame.DataFrame.split"), repo.fn("dataiter.data_frame.DataFrame.split").vararg or "by", [("b",)],
                            "split partitions by the columns it is given, whatever an earlier group_by() left behind")
+    _gen.names_as_given(ctx, repo.fn("dataiter.data_frame.DataFrame.group_by"), repo.fn("dataiter.data_frame.DataFrame.group_by").vararg,
+                        "one summary row per distinct key, ascending by the group columns in the order given")
     _gen.rank_orders_values(ctx, repo.fn("dataiter.vector.Vector.rank"), "one summary row per distinct key, ascending by the group columns")
     I = interp(repo)
     for r, t in (("IDX-2", "one key tuple for sort / unique / select; ascending; single stable ordering"),
